@@ -933,6 +933,12 @@ class BisectionZD(Bisection1D):
         negative_excess_values = [v for v in values if v <= 0.0]
 
         excess_of_interest = max(negative_excess_values)
+        # as in Bisection1D.search: select the smallest field with negative excess temperature
+        num_bh = [len(self.coordinates_domain_nested[selection_key_outer][x]) for x in keys]
+        for _, val in sorted(zip(num_bh, values)):
+            if val < 0:
+                excess_of_interest = val
+                break
         idx = values.index(excess_of_interest)
         selection_key = keys[idx]
         selected_coordinates = self.coordinates_domain_nested[selection_key_outer][selection_key]
